@@ -54,23 +54,24 @@ EXPLANATION = ("Theorems (Alg/C13Samplers.v, C13Solver.v, C13Steps.v, C13StepAri
                "behaviour is accepted everywhere except inside the trigger region of the open finding C13-S1 (short zero supply, "
                "decided from the inputs and the captured draws alone — the NUMBER of draws is tied to the request by the oversampling "
                "rule —: faithful and repaired stratified sampler both accepted). Comparisons of exact observations are made in Coq; "
-               "only identity / array_equal bits (obs_bits) are decided by the harness. Open finding C13-G1 (Adagrad turns the model "
-               "into nan on an exactly zero gradient while its accumulator is 0): the trigger is decided from the captured update-step "
-               "inputs; the model (exact-rational step: stays put) is the repaired behaviour. The driver stream compares the outcome of "
+               "only identity / array_equal bits (obs_bits) are decided by the harness. Finding C13-G1 (Adagrad turned the model "
+               "into nan on an exactly zero gradient while its accumulator is 0) is repaired (/repo 2496788): ONE behaviour — the step "
+               "model carries the guard (step 0 while the accumulator is not positive, no square root computed; C13_adagrad_zero_accumulator) "
+               "and the solves started at an exact solution (incl. the former witness call) must return the start. The driver stream compares the outcome of "
                "gcp_opt (which rejection fires / which solver gets which bound, data, mask, sampler, initial guess) with the decision "
                "procedure Alg/C13Driver.v; the data-validity test of fg_setup.setup and the ktensor constructor on a user list are oracles.")
 CORRESPONDENCE_ONLY = ["floating-point rounding of the Adam / Adagrad / SGD update arithmetic (the exact-rational step functions are theorems: closed forms, direction, bounds, state updates; pyttb's floats are compared with them to 1e-9 on the captured steps) and numpy's sqrt (oracle: >= 0 and s*s = x to 1e-9 checked on every captured call)",
                        "scipy.optimize.fmin_l_bfgs_b itself (oracle; its contract 'returned point never worse than a feasible start, result inside the bounds' is checked on sampled runs incl. abandoned line searches)",
-                       "GCPSampler default counts / oversampling rule of samplers.zeros / LBFGSB wrapper / update steps / sampler bodies: theorems are about hand transliterations (Alg/C13Config.v, C13Samplers.v, C13Steps.v) tied by read-back / capture correspondence (float ceilings, square roots, draws, scipy's answer are recorded oracles), not by translation; the StochasticSolver.solve loop IS tied by translation (Gen/GenSolver.v, Props/W4SC13.v)",
-                       "gcp_opt driver: argument handling and dispatch are a hand transliteration (Alg/C13Driver.v, theorems C13_driver_*) tied by the `driver` stream with recording solvers (w5-skel is generating Gen/GenGcpOpt.v: bridge not done); the NUMERICS of the initial guess (normalize('all'), scaling of a random guess to the data norm) are compared by the harness (unit weights, same denotation / same norm to 1e-9), no theorem; fg_setup.setup's data-validity tests are an oracle, its table of lower bounds is transliterated (setup_lb)",
+                       "GCPSampler default counts / oversampling rule of samplers.zeros / LBFGSB wrapper / update steps / sampler bodies: theorems are about hand transliterations (Alg/C13Config.v, C13Samplers.v, C13Steps.v) tied by read-back / capture correspondence — the default-count table additionally by translation (Gen/GenSampler.v bridged to fn_config_o / gr_config_o in Props/W4SC13b.v, INCLUDE w4s_c13b) — (float ceilings, square roots, draws, scipy's answer are recorded oracles), not by translation; the StochasticSolver.solve loop IS tied by translation (Gen/GenSolver.v, Props/W4SC13.v)",
+                       "gcp_opt driver: argument handling and dispatch are a hand transliteration (Alg/C13Driver.v, theorems C13_driver_*) tied by the `driver` stream with recording solvers AND by translation (Gen/GenGcpOpt.v bridged to it in Props/W4SC13d.v, INCLUDE w4s_c13c); the NUMERICS of the initial guess (normalize('all'), scaling of a random guess to the data norm) are compared by the harness (unit weights, same denotation / same norm to 1e-9), no theorem; fg_setup.setup's data-validity tests are an oracle, its table of lower bounds is transliterated (setup_lb)",
                        "samplers.nonzeros / samplers.zeros without replacement: hand transliteration (Alg/C13Direct.v); np.unique is a parameter of C13_zeros_rows of which only 'duplicate-free selection of its input' is assumed — the check runs the executable lex_usort (sorted distinct rows) and tests its answer for duplicates on every case, no proof that lex_usort is duplicate-free; np.random.choice(replace=False) is an oracle whose answer is tested for duplicates; the coupon-collector ceiling (log) is a recorded oracle of which only the LAST recorded ceiling = number of drawn rows is compared",
                        "LBFGSB option dictionary: hand transliteration (Alg/C13Opts.v, C13_lbfgsb_options / C13_lbfgsb_pgtol) tied by recording every keyword handed to scipy in every lbfgsb / lbfgsb_reuse solve"]
 ASSUMPTIONS = ["numpy draws are multiples of 2^-53 in [0,1); the float product u*d is taken exactly (its rounding is not modelled)",
-               "objective estimates are compared by their exact float values; NaN estimates are outside the model (total order): a run whose estimates are not finite is skipped UNLESS an Adagrad step with an exactly zero gradient and empty accumulator was captured in it (then it is the open finding C13-G1, not a diverging run)",
+               "objective estimates are compared by their exact float values; NaN estimates are outside the model (total order): a run whose estimates are not finite is skipped UNLESS an Adagrad step with an exactly zero gradient and empty accumulator was captured in it (then it is not a diverging run but a regression of the repaired finding C13-G1: reported as a mismatch)",
                "scipy.optimize.fmin_l_bfgs_b returns a point of the start's length that is never worse than a FEASIBLE start and keeps it feasible (scipy_contract); about the value it reports only 'reported value = objective at the returned point unless warnflag = 2' (scipy_reports_value) is assumed, and only by C13_lbfgsb_final_f: after an abandoned line search scipy reports the rejected trial point's value and the wrapper re-evaluates (C13-L1, repaired)",
                "the float quotient / product under math.ceil (GCPSampler defaults) and np.ceil (samplers.zeros) lies within one rounding (2^-52 relative) of the exact one; ceil itself is exact on its float argument (both checked on every recorded call)",
                "an infeasible start is first projected into the box by scipy: 'the start' of the never-worse clause is that projected point",
-               "of the square root only 0 <= sqrt(x) is assumed in the step theorems"]
+               "of the square root only 0 <= sqrt(x) is assumed in the step theorems (nothing at all in C13_adagrad_zero_accumulator: the root is not computed there)"]
 
 D53 = 2 ** 53
 
@@ -159,8 +160,15 @@ def gen_cases(rng, tier):
                 cases.append(Case("solve", a, True))
                 if n == 4 or big:
                     cases.append(Case("solve_trace", dict(a), True))
-    # ---- solves started AT an exact solution (data = the tensor the initial guess denotes, dyadic factors: every sampled gradient is
-    #      exactly zero): no optimizer may leave a finite model (Adagrad: input class of the open finding C13-G1)
+    # ---- solves started AT an exact solution (data = the tensor the initial guess denotes, dyadic factors >= 1/4 = feasible for every
+    #      bound used here: every sampled gradient is exactly zero): every optimizer returns the START, and every model held at an epoch
+    #      boundary is the start (bit `stay`; Adagrad with accumulator 0: repaired finding C13-G1, /repo 2496788 — the model's step is 0
+    #      there, Alg/C13StepArith.v adagrad_zero_accumulator). First the former witness call of C13-G1 (through gcp_opt, integer factors).
+    a = {"shape": [2, 3], "data": [1.0, 2.0, 3.0, 6.0, 2.0, 4.0], "R": 1, "init": [[[1.0], [2.0]], [[1.0], [3.0], [2.0]]], "obj": "gaussian",
+         "seed": 0, "sparse": False, "fs": 6, "gs": 6, "opt": "adagrad", "rate": 0.125, "decay": 0.5, "max_fails": 1, "epoch_iters": 2,
+         "max_iters": 2, "tol": None, "via": "gcp_opt", "init_kind": "ktensor", "init_weights": [1.0], "printitn": 0, "exact_start": True}
+    cases.append(Case("solve", a, True))
+    cases.append(Case("solve_trace", dict(a), True))
     for k in range(18 if big else 6):
         shp = [(2, 3), (2, 2), (3, 2, 2)][k % 3]
         a = U.rand_problem(rng5, shp)
@@ -168,9 +176,13 @@ def gen_cases(rng, tier):
         fac = a["init"]
         a["data"] = [float(sum(math.prod(Fraction(fac[m][i][r]) for m, i in enumerate(sub)) for r in range(a["R"]))) for sub in tgen.all_subs(shp)]
         a.update({"opt": ["adagrad", "sgd", "adam"][k % 3], "rate": 0.125, "decay": 0.5, "max_fails": k % 2, "epoch_iters": 1 + k % 2,
-                  "max_iters": 2 + k % 2, "tol": None})
+                  "max_iters": 2 + k % 2, "tol": None, "exact_start": True})
         cases.append(Case("solve", a, True))
         cases.append(Case("solve_trace", dict(a), True))
+        if k % 3 == 0:          # ... and the Adagrad steps of such a solve through the exact-rational step model: accumulator 0, NO square root
+            b = dict(a)
+            b.update({"beta_1": 0.9, "beta_2": 0.999, "epsilon": 1e-8})
+            cases.append(Case("step", b, True))
     # ---- L-BFGS-B wrapper (scipy is an oracle): option corners that change scipy's control flow (abandoned line searches,
     #      budgets of 0..3 iterations / evaluations), memory layouts of the initial factors, data / start magnitudes 2^-20..2^20;
     #      the vector scipy answers is replayed through the Coq wrapper model (returned model = that vector, read back)
@@ -332,9 +344,11 @@ def _step_check(a, o):
         if a["opt"] == "sgd":
             parts.append(f"qsgd_check {rate} {decay} {gnat(st['nf'])} {lb} {xs} {gs} {out} {step}")
         elif a["opt"] == "adagrad":
-            if len(st["sq_out"]) != 1:
-                return "false"          # malformed capture (one square root per Adagrad step): fail closed
-            parts.append(f"qadagrad_check {lb} {_q(st['before']['gsum'])} {xs} {gs} {_q(st['sq_out'][0])} {out} "
+            if len(st["sq_out"]) > 1:
+                return "false"          # malformed capture (at most one square root per Adagrad step): fail closed
+            # the number of np.sqrt calls is compared in Coq: 1 while the new accumulator is positive, 0 otherwise (then s is ignored)
+            s_obs = st["sq_out"][0] if st["sq_out"] else "0"
+            parts.append(f"qadagrad_check {lb} {_q(st['before']['gsum'])} {xs} {gs} {gnat(len(st['sq_out']))} {_q(s_obs)} {out} "
                          f"{_q(st['after']['gsum'])} {step}")
         else:
             af = st["after"]
@@ -436,7 +450,7 @@ def coq_check(c, o):
         ztrue = "true" if semi else f"zeros_ok_sp {S} {zeros_part}"
         return (f"sample_ok_sp {S} {gzmat(o['subs'])} {gzlist(o['vals'])} {gnat(nw)} && {shape_ok} && {ztrue} && {tot}")
     if c.op in ("solve", "solve_trace") and o.get("nonfinite"):
-        return "false"          # a nan model / trace is never what the model answers (the exact-rational Adagrad step stays put on a zero gradient)
+        return "false"          # a nan model / trace is never what the model answers (the Adagrad step model has step 0 while the accumulator is 0)
     if c.op in ("solve", "solve_trace"):
         ests, trace, tol = U.scale(o["ests"], o["trace"], a["tol"])
         s = f"(zsolve {gzlist(ests)} {gnat(a['max_fails'])} {gopt(tol, gz)} {gnat(a['max_iters'])})"
@@ -449,7 +463,7 @@ def coq_check(c, o):
         return (f"zsolve_ok {gzlist(ests)} {gnat(a['max_fails'])} {gopt(tol, gz)} {gnat(a['max_iters'])} {gnlist(o['ret_cands'])} "
                 f"{gnat(len(o['ests']) - 1)} {gnat(o['nfails'])} {gnat(o['n_epoch'])} && "
                 f"vec_eqb (zreported_trace {gzlist(ests)} {gnat(a['max_iters'])} {s}) {gzlist(trace)} && "
-                f"Nat.eqb {gnat(o['step_trace_len'])} {gnat(len(trace))} && obs_bits [{gbool(o['init_unchanged'])}] && "
+                f"Nat.eqb {gnat(o['step_trace_len'])} {gnat(len(trace))} && obs_bits {gblist([o['init_unchanged']] + ([o['stay']] if a.get('exact_start') else []))} && "
                 f"{bounds} && forallb (qabove_b {lbq}) {_gqlist(o['bmin'])}")
     if c.op == "step":
         return _step_check(a, o)
@@ -531,11 +545,9 @@ def oracle(c, o):
 
 
 # ----------------------------------------------------------------------------------------- findings
-TRIGGERS = {      # only the OPEN findings (A-47, C13-S1, C13-S3, C13-G1); the repaired ones (incl. C13-L1, C13-L2) are regression cases in gen_cases
+TRIGGERS = {      # only the OPEN findings (A-47, C13-S1, C13-S3); the repaired ones (incl. C13-L1, C13-L2, C13-G1) are regression cases in gen_cases
     "sptensor_without_nonzeros": lambda c: c.op.split("_")[0] in ("stratified", "semistrat") and not c.args["subs"] and c.args["cn"] == 0,
     "semistrat_zero_hits_nonzero": lambda c: c.op == "semistrat_prop" and bool(c.meta.get("semi_hit")),
-    # C13-G1: Adagrad.update_step saw an exactly zero gradient while its accumulator was 0 (decided from the captured step inputs)
-    "adagrad_zero_gradient": lambda c: c.op in ("solve", "solve_trace", "reuse") and c.args.get("opt") == "adagrad" and bool(c.meta.get("adagrad_zero")),
     "zero_supply_short": lambda c: c.op in ("stratified", "stratified_prop", "solve", "solve_trace") and bool(c.meta.get("short")),
 }
 WITNESSES = U.WITNESSES
